@@ -371,7 +371,12 @@ type IntersectsFeature struct {
 }
 
 func (i IntersectsFeature) Matches(f Feature, w World) bool {
-	return i.ID == f.FeatureID() || i.toGeometryQuery(w).Matches(f, w)
+	q := i.toGeometryQuery(w)
+	if _, ok := q.(Empty); ok {
+		// No geometry to intersect with, consistent with Compile().
+		return false
+	}
+	return i.ID == f.FeatureID() || q.Matches(f, w)
 }
 
 func (i IntersectsFeature) Compile(index FeatureIndex, w World) search.Iterator {
